@@ -84,6 +84,16 @@ def run(ctx):
         for c, g0, g1 in cmps_:
             r.check(g0 == g1 == f0 == f1, "are_ambiguous/literal-compare=same-normal-form-as-unapply", c.loc(), "are_ambiguous compares literals in the form unapply matches them in (%s)" % g0,
                     "are_ambiguous compares literals as %s/%s but unapply matches them as %s/%s: two patterns whose literals are equal in unapply's form and different in are_ambiguous's accept the same routes without being reported (raw vs decoded: /a%%2Db and /a-b; bytes vs lossy text: /caf%%E9 and /caf%%E8)" % (g0, g1, f0, f1))
+        # every reason for which are_ambiguous answers `false` must be one that rules out a common route for *all* URIs.
+        # unapply treats a scheme as a wildcard when either the pattern or the URI has none, so the scheme never separates
+        # two patterns; only the segment count, a pair of unequal literals and absolute-vs-relative do.
+        DECISIVE = ("len(", ".parameter", "segment_str(", "percent_decode", ".segments", "absolute", "disc(next(", "next(into_iter(")
+        for i, j, p, rv, line in am.assigns():
+            if p[0] == 0 and not p[1] and describe_rvalue(am, rv) == "False":
+                g = guards(am, i)
+                alien = [d for d, l, _ in g if not any(t in d for t in DECISIVE)]
+                r.check(not alien, "are_ambiguous/false-only-for-decisive-reasons", am.loc(line), "`false` is returned only on grounds that exclude a common route for every URI (segment count, unequal literals)",
+                        "are_ambiguous answers false on the ground of `%s`, which unapply does not treat as decisive (a pattern without a scheme matches URIs of any scheme, and a URI without a scheme is matched by patterns of any scheme): two patterns that both match the same URI are accepted as unambiguous" % (alien[0][:80] if alien else ""))
         g = dom_guards(am, cmps[0].block)
         r.check(sum(1 for d, l, _ in g if d.endswith(".parameter") and l == "false") == 2, "are_ambiguous/only-literal-pairs-can-differ", cmps[0].loc(), "a pair of segments separates two patterns only if both are literals")
         lens = [c for c in am.calls if c.name == "len" and "segments" in describe_operand(am, c.args[0])]
